@@ -5,11 +5,12 @@ from .. import ospec
 from . import loadeval as loaderx
 
 EXPLANATION = (
-    "The loader is a finite transducer over (function open?, block open?) x opcode. An abstract interpreter evaluates "
-    "Loader::consume_instruction for every one of the 787 opcodes in each of the 4 abstract states (guards resolved by "
-    "symbolic evaluation of grammar::reflect) and Loader::finalize in each state; the extracted transition/outcome table is "
-    "compared with the reference automaton transcribed from the property statement and the SPIR-V logical layout (O-STMT/"
-    "O-SPEC). Exhaustive at the abstraction the statement itself uses; no loader code is run.")
+    "The loader is a finite transducer over (function open?, block open?) x opcode. Loader::consume_instruction is evaluated (rule "
+    "engine's evaluator of the expanded syntax tree on a Loader value built by Loader::new(); guards resolved by deciding each "
+    "grammar::reflect predicate per opcode) for every one of the 787 opcodes in each of the 4 states, and Loader::finalize in each "
+    "state; where the instruction value ends up, which objects are created or handed over, and the next state are read off the "
+    "resulting value and compared with the reference automaton transcribed from the property statement and the SPIR-V logical layout "
+    "(O-STMT/O-SPEC). Exhaustive at the abstraction the statement itself uses; no loader code is run.")
 EXHAUSTIVE = True
 
 STATES = [(False, False), (True, False), (True, True), (False, True)]
